@@ -76,6 +76,11 @@ def gen_model(rng, kind, quad=False, nmax=4, maxdeg=3, halves_p=0.25, raw_dict_t
         if len(labels) >= 2:
             terms[(labels[1], labels[0])] = rng.choice([-1, 1])
             terms[(labels[0], labels[1])] = rng.choice([1, 2])
+        if not (quad or kind in QUADK) and rng.random() < 0.4:
+            # a label three times in one key (boolean: x, spin: z), also next to another label
+            terms[(labels[0], labels[0], labels[0])] = rng.choice([-2, 1, 3])
+            if len(labels) >= 2 and rng.random() < 0.5:
+                terms[(labels[0], labels[1], labels[0], labels[0])] = rng.choice([-1, 2])
     return labels, terms, matrix
 
 
